@@ -131,6 +131,45 @@ class Opaque:
         return f"<opaque {self.tag}>"
 
 
+IMAG = Poly.var("__I__")
+
+
+def cx_parts(v):
+    """(real, imaginary) parts of a value written with the formal imaginary unit IMAG, powers reduced by I^2 = -1"""
+    v = exact(v)
+    if isinstance(v, XArray):
+        parts = [cx_parts(x) for x in v.data]
+        return XArray(v.shape, [p[0] for p in parts]), XArray(v.shape, [p[1] for p in parts])
+    if not isinstance(v, Poly):
+        return v, Q(0)
+    re, im = Poly(), Poly()
+    k, cur = 0, v
+    while True:
+        c0 = cur.subs({"__I__": Poly()})
+        if k % 4 == 0:
+            re = re + c0
+        elif k % 4 == 1:
+            im = im + c0
+        elif k % 4 == 2:
+            re = re - c0
+        else:
+            im = im - c0
+        cur = cur.diff("__I__")
+        k += 1
+        if cur.is_zero() if hasattr(cur, "is_zero") else not cur.t:
+            break
+        # d/dI of c_k I^k is k c_k I^(k-1): divide the running factorial out
+        cur = cur * Q(1, k)
+    return re, im
+
+
+def is_complex_value(v):
+    v = exact(v)
+    if isinstance(v, XArray):
+        return v.dtype == "c" or any(is_complex_value(x) for x in v.data)
+    return isinstance(v, Poly) and "__I__" in v.vars()
+
+
 class PiMul:
     """q . pi with q rational: angles of the Chebyshev / Clenshaw-Curtis constructions.  Closed under + - and scaling by
     rationals; cos / sin are exact (multi-quadratic) for denominators 1, 2, 3, 4, 5, 6, 10, 12."""
@@ -167,6 +206,53 @@ class PiMul:
 
     def __repr__(self):
         return f"{self.q}*pi"
+
+    _PI_LO, _PI_HI = Fraction(314159265358979, 10**14), Fraction(314159265358980, 10**14)
+
+    def _cmp(self, o):
+        """-1 / 0 / +1 for self vs o (a PiMul or a rational); undecided inside the interval of pi is an error"""
+        if isinstance(o, PiMul):
+            d = self.q - o.q
+            return (d > 0) - (d < 0)
+        o = exact(o)
+        if isinstance(o, Poly) and o.is_const():
+            o = o.const_value()
+        if isinstance(o, MQ) and o.is_rational():
+            o = o.rational()
+        if not isinstance(o, (int, Fraction)) or isinstance(o, bool):
+            raise TypeError("comparison of a multiple of pi with a non-number")
+        if self.q == 0:
+            return (0 > o) - (0 < o)
+        lo, hi = sorted((self.q * self._PI_LO, self.q * self._PI_HI))
+        if o < lo:
+            return 1
+        if o > hi:
+            return -1
+        raise AlgError("comparison of a multiple of pi with a number inside the error interval of pi")
+
+    def __eq__(self, o):
+        try:
+            return self._cmp(o) == 0
+        except (TypeError, AlgError):
+            return False
+
+    def __hash__(self):
+        return hash(("pi", self.q))
+
+    def __lt__(self, o):
+        return self._cmp(o) < 0
+
+    def __le__(self, o):
+        return self._cmp(o) <= 0
+
+    def __gt__(self, o):
+        return self._cmp(o) > 0
+
+    def __ge__(self, o):
+        return self._cmp(o) >= 0
+
+    def __rsub__(self, o):
+        return NotImplemented
 
     def cos(self):
         q = self.q % 2  # cos is 2 pi periodic
@@ -592,6 +678,8 @@ class _Frame:
             if "e" not in digits and len(digits) >= 10:
                 self.I.approx_literals.append((self.file, n.lineno, repr(v)))
             return to_q(v)
+        if isinstance(v, complex):
+            return Poly.const(to_q(v.real)) + IMAG * to_q(v.imag)  # the formal imaginary unit (I^2 = -1 on splitting)
         return v
 
     def e_Name(self, n):
@@ -725,6 +813,13 @@ class _Frame:
                         return 1 / MQ.sqrt(a)
                     if isinstance(a, Poly) or getattr(type(a), "_xeval_open", False):
                         return a**b
+                    if b.denominator == 2 and isinstance(a, (int, Fraction, MQ, XArray)):
+                        # a ** (k/2) = sqrt(a) ** k  (exact when the square roots are in the multi-quadratic domain)
+                        root = _np_sqrt(a)
+                        k = b.numerator
+                        if isinstance(root, XArray):
+                            return XArray(root.shape, [(x ** k) if k >= 0 else 1 / (x ** -k) for x in root.data])
+                        return root ** k if k >= 0 else 1 / (root ** -k)
                     raise self.bad(f"non-integer power {b}", n)
                 if isinstance(a, Fraction) and isinstance(b, Fraction):
                     return a ** int(b)
@@ -735,6 +830,22 @@ class _Frame:
                 return a // b
             if op is ast.Mod:
                 return a % b
+            if op in (ast.BitAnd, ast.BitOr):
+                comb = (lambda x, y: x and y) if op is ast.BitAnd else (lambda x, y: x or y)
+
+                def bools(v):
+                    vals = v.data if isinstance(v, XArray) else [v]
+                    if not all(isinstance(x, bool) for x in vals):
+                        raise TypeError("& / | of values that are not decided booleans")
+                    return v
+
+                a, b = bools(a), bools(b)
+                if isinstance(a, XArray) or isinstance(b, XArray):
+                    A = a if isinstance(a, XArray) else XArray((), [a])
+                    B = b if isinstance(b, XArray) else XArray((), [b])
+                    sh = XArray._bshape(A.shape, B.shape)
+                    return XArray(sh, [comb(x, y) for x, y in zip(A.broadcast_to(sh).data, B.broadcast_to(sh).data)])
+                return comb(a, b)
         except TypeError as e:
             raise self.bad(f"arithmetic on unsupported operands ({type(a).__name__}, {type(b).__name__}): {e}", n)
         raise self.bad(f"binary operator {op.__name__}", n)
@@ -773,6 +884,11 @@ class _Frame:
                 arr, sc = (a, b) if isinstance(a, XArray) else (b, a)
                 want = isinstance(op, ast.Eq)
                 return XArray(arr.shape, [(x == sc) is want if isinstance(x == sc, bool) else bool(x == sc) is want for x in arr.data])
+            if isinstance(op, (ast.Eq, ast.NotEq)) and isinstance(a, XArray) and isinstance(b, XArray):
+                # numpy: elementwise, operands broadcast together
+                sh = XArray._bshape(a.shape, b.shape)
+                want = isinstance(op, ast.Eq)
+                return XArray(sh, [bool(exact(x) == exact(y)) is want for x, y in zip(a.broadcast_to(sh).data, b.broadcast_to(sh).data)])
             if isinstance(op, ast.Eq):
                 return a == b
             if isinstance(op, ast.NotEq):
@@ -908,11 +1024,17 @@ class _Frame:
             if attr in ("reshape", "ravel", "flatten", "transpose", "copy", "sum", "mean", "tolist", "max", "min"):
                 return getattr(obj, attr)
             if attr == "astype":
-                return lambda t=None, *a, **k: XArray(obj.shape, obj.data, _kind_of(t))
+                return lambda t=None, *a, **k: XArray(obj.shape, list(obj.data), _kind_of(t))
             if attr == "dtype":
-                return obj.dtype if obj.dtype is not None else "f"
+                return _DType("c" if is_complex_value(obj) else obj.dtype if obj.dtype is not None else "f")
+            if attr in ("real", "imag"):
+                return cx_parts(obj)[0 if attr == "real" else 1]
             if attr == "repeat":
                 return lambda repeats, axis=None: _np_repeat(obj, repeats, axis)
+            if attr in ("any", "all"):
+                return lambda *a, **k: _np_allany(obj, any if attr == "any" else all, **k)
+            if attr == "swapaxes":
+                return lambda i, j: _np_swapaxes(obj, i, j)
             if attr in ("integrate", "_ndim", "_shape", "dot", "ddot") and hasattr(obj, attr):
                 return getattr(obj, attr)
             raise self.bad(f"array attribute {attr}", n)
@@ -1163,14 +1285,39 @@ def exact_tree(v):
 # ---------------------------------------------------------------------------
 
 
+class _DType:
+    """the dtype of a modelled array, as far as its kind: compares equal to int / float / np.int64 ... of the same kind"""
+
+    _xeval_open = True
+
+    def __init__(self, kind):
+        self.kind = kind
+
+    def __eq__(self, o):
+        return _kind_of(o) == self.kind
+
+    def __ne__(self, o):
+        return not self.__eq__(o)
+
+    def __hash__(self):
+        return hash(self.kind)
+
+    def __repr__(self):
+        return f"dtype({self.kind})"
+
+
 def _kind_of(dtype):
     """'i' / 'f' / None for a dtype argument (python type, np.int64 ..., the .dtype of a modelled array)"""
     if dtype is None:
         return None
+    if isinstance(dtype, _DType):
+        return dtype.kind
     if dtype is int or (isinstance(dtype, _NpAttr) and dtype.path.startswith(("int", "uint"))) or dtype == "i":
         return "i"
     if dtype is float or (isinstance(dtype, _NpAttr) and dtype.path.startswith("float")) or dtype == "f":
         return "f"
+    if dtype is complex or (isinstance(dtype, _NpAttr) and dtype.path.startswith("complex")) or dtype == "c":
+        return "c"
     return None
 
 
@@ -1206,7 +1353,7 @@ def _np_zeros(shape, dtype=None, **kw):
     if isinstance(shape, (int, Fraction)):
         shape = (int(shape),)
     a = XArray.full(tuple(int(s) for s in shape), Q(0))
-    a.dtype = _kind_of(dtype)
+    a.dtype = _kind_of(dtype) if dtype is not None else "f"  # numpy's default is float64
     return a
 
 
@@ -1225,7 +1372,9 @@ def _np_eye(n, dtype=None, **kw):
 
 
 def _np_arange(*a, dtype=None, **kw):
-    return XArray.from_nested(list(range(*[int(x) for x in a])))
+    out = XArray.from_nested(list(range(*[int(x) for x in a])))
+    out.dtype = "i"
+    return out
 
 
 def _np_diag(v, k=0):
@@ -1406,6 +1555,25 @@ def _np_linalg_norm(a, axis=None, keepdims=False, **kw):
                 tot = tot + x * x
             out.append(_np_sqrt(tot))
         return XArray((a.shape[0], 1) if keepdims else (a.shape[0],), out)
+    if isinstance(axis, (tuple, list)) and a.ndim >= 2:
+        # Frobenius norm over several axes
+        axes = sorted(int(x) % a.ndim for x in axis)
+        keep = [i for i in range(a.ndim) if i not in axes]
+        m = a.transpose(*(keep + axes))
+        n = 1
+        for i in axes:
+            n *= a.shape[i]
+        out = []
+        for k in range(0, m.size, n):
+            tot = 0
+            for x in m.data[k:k + n]:
+                tot = tot + x * x
+            out.append(_np_sqrt(tot))
+        shape = tuple(a.shape[i] for i in keep)
+        res = XArray(shape, out) if shape else out[0]
+        if keepdims and shape:
+            res = res.reshape(tuple(1 if i in axes else a.shape[i] for i in range(a.ndim)))
+        return res
     if isinstance(axis, (int, Fraction)) and a.ndim >= 1:
         # 2-norm along one axis of an N-D array
         ax = int(axis) % a.ndim
@@ -1531,13 +1699,29 @@ _NP_FUNCS = {
     "diff": lambda a, **k: (lambda v: XArray((max(len(v) - 1, 0),), [v[i + 1] - v[i] for i in range(len(v) - 1)]))(list(XArray.from_nested(a).data)),
     "bincount": lambda x, weights=None, minlength=0: _np_bincount(x, weights, minlength),
     "flatnonzero": lambda a: _np_flatnonzero(a),
+    "maximum": lambda a, b: _np_ewise2(a, b, lambda x, y: y if y > x else x),
+    "minimum": lambda a, b: _np_ewise2(a, b, lambda x, y: y if y < x else x),
+    "clip": lambda a, lo, hi, out=None: _np_clip(a, lo, hi, out),
+    "divide": lambda a, b, out=None, where=None: _np_divide(a, b, out, where),
+    "arccos": lambda a: _np_arccos(a),
+    "argmax": lambda a, axis=None: _np_argext(a, axis, lambda x, y: y > x),
+    "argmin": lambda a, axis=None: _np_argext(a, axis, lambda x, y: y < x),
+    "heaviside": lambda a, h0: _np_ewise2(a, h0, lambda x, h: Q(1) if x > 0 else Q(0) if x < 0 else h),
+    "moveaxis": lambda a, s_, d_: _np_moveaxis(a, s_, d_),
+    "array_equal": lambda a, b: (lambda A, B: A.shape == B.shape and all(exact(x) == exact(y) for x, y in zip(A.data, B.data)))(XArray.from_nested(a), XArray.from_nested(b)),
+    "floor": lambda a: _np_round_dir(a, -1),
+    "ceil": lambda a: _np_round_dir(a, +1),
+    "meshgrid": lambda x, y, indexing="xy": _np_meshgrid(x, y, indexing),
+    "ravel_multi_index": lambda multi, dims: _np_ravel_multi_index(multi, dims),
     "cos": lambda a: _np_trig(a, "cos"),
     "sin": lambda a: _np_trig(a, "sin"),
     "max": lambda a, axis=None, **k: XArray.from_nested(a).max(axis),
     "min": lambda a, axis=None, **k: XArray.from_nested(a).min(axis),
     "amax": lambda a, axis=None, **k: XArray.from_nested(a).max(axis),
     "amin": lambda a, axis=None, **k: XArray.from_nested(a).min(axis),
-    "iscomplexobj": lambda a: False,
+    "iscomplexobj": lambda a: is_complex_value(a),
+    "real": lambda a: cx_parts(a)[0],
+    "imag": lambda a: cx_parts(a)[1],
     "int64": lambda x=0: x,
     "int32": lambda x=0: x,
 }
@@ -1552,6 +1736,136 @@ def _np_trig(a, which):
     if isinstance(a, (int, Fraction)) and a == 0:
         return Q(1) if which == "cos" else Q(0)
     raise AlgError(f"np.{which} of a value that is not a rational multiple of pi")
+
+
+def _np_round_dir(a, d):
+    import math
+
+    if isinstance(a, XArray):
+        return XArray(a.shape, [_np_round_dir(v, d) for v in a.data])
+    a = exact(a)
+    if isinstance(a, Poly) and a.is_const():
+        a = a.const_value()
+    if isinstance(a, MQ):
+        if a.is_rational():
+            a = a.rational()
+        else:
+            f = Fraction(a.approx(30))
+            return Fraction(math.floor(f) if d < 0 else math.ceil(f))
+    if isinstance(a, (int, Fraction)):
+        return Fraction(math.floor(a) if d < 0 else math.ceil(a))
+    raise AlgError("floor / ceil of an undecided value")
+
+
+def _np_meshgrid(x, y, indexing="xy"):
+    x, y = XArray.from_nested(x), XArray.from_nested(y)
+    if indexing != "xy":
+        raise AnalysisError("np.meshgrid indexing other than 'xy' is not modelled")
+    nx, ny = x.size, y.size
+    X = XArray((ny, nx), [x.data[i] for _ in range(ny) for i in range(nx)], x.dtype)
+    Y = XArray((ny, nx), [y.data[j] for j in range(ny) for _ in range(nx)], y.dtype)
+    return [X, Y]
+
+
+def _np_ravel_multi_index(multi, dims):
+    arrs = [XArray.from_nested(m).ravel() for m in (multi if not isinstance(multi, XArray) else [multi[i] for i in range(multi.shape[0])])]
+    dims = [int(exact(d)) for d in (dims.data if isinstance(dims, XArray) else dims)]
+    if len(arrs) != len(dims):
+        raise XArrayError("ravel_multi_index: as many index arrays as dimensions are needed")
+    out = []
+    for k in range(arrs[0].size):
+        idx = 0
+        for a, d in zip(arrs, dims):
+            v = int(exact(a.data[k]))
+            if not 0 <= v < d:
+                raise XRaise("ValueError", "invalid entry in coordinates array")
+            idx = idx * d + v
+        out.append(idx)
+    return XArray((len(out),), out, "i")
+
+
+def _np_ewise2(a, b, f):
+    a, b = exact(a), exact(b)
+    if isinstance(a, XArray) or isinstance(b, XArray):
+        A = a if isinstance(a, XArray) else XArray((), [a])
+        B = b if isinstance(b, XArray) else XArray((), [b])
+        sh = XArray._bshape(A.shape, B.shape)
+        return XArray(sh, [f(exact(x), exact(y)) for x, y in zip(A.broadcast_to(sh).data, B.broadcast_to(sh).data)])
+    return f(a, b)
+
+
+def _np_clip(a, lo, hi, out=None):
+    lo, hi = exact(lo), exact(hi)
+    A = XArray.from_nested(a)
+    vals = [hi if exact(x) > hi else lo if exact(x) < lo else x for x in A.data]
+    if out is not None:
+        if not isinstance(out, XArray) or out.shape != A.shape:
+            raise XArrayError("np.clip out= of another shape")
+        out.data[:] = vals
+        return out
+    return XArray(A.shape, vals)
+
+
+def _np_divide(a, b, out=None, where=None):
+    A, B = XArray.from_nested(a), XArray.from_nested(exact(b) if not isinstance(b, XArray) else b) if isinstance(b, (XArray, list, tuple)) else None
+    A = XArray.from_nested(a)
+    sh = A.shape
+    Bv = XArray.from_nested(b).broadcast_to(sh).data if isinstance(b, (XArray, list, tuple)) else [exact(b)] * A.size
+    if where is None:
+        vals = [x / y for x, y in zip(A.data, Bv)]
+    else:
+        W = XArray.from_nested(where).broadcast_to(sh).data
+        if not all(isinstance(w, bool) for w in W):
+            raise XArrayError("np.divide where= of undecided booleans")
+        base = out.data if out is not None else [Q(0)] * A.size
+        vals = [(x / y) if w else o for x, y, w, o in zip(A.data, Bv, W, base)]
+    if out is not None:
+        out.data[:] = vals
+        return out
+    return XArray(sh, vals)
+
+
+def _np_arccos(a):
+    if isinstance(a, XArray):
+        return XArray(a.shape, [_np_arccos(v) for v in a.data])
+    a = exact(a)
+    if isinstance(a, MQ) and a.is_rational():
+        a = a.rational()
+    table = {Fraction(1): Fraction(0), Fraction(-1): Fraction(1), Fraction(0): Fraction(1, 2), Fraction(1, 2): Fraction(1, 3), Fraction(-1, 2): Fraction(2, 3)}
+    if isinstance(a, (int, Fraction)) and Fraction(a) in table:
+        return PiMul(table[Fraction(a)])
+    raise AlgError(f"arccos({a!r}) is outside the exact domain")
+
+
+def _np_argext(a, axis, better):
+    A = XArray.from_nested(a)
+    if axis is None:
+        best = 0
+        for i in range(1, A.size):
+            if better(exact(A.data[best]), exact(A.data[i])):
+                best = i
+        return best
+    ax = int(axis) % A.ndim
+    moved = A.transpose(*([i for i in range(A.ndim) if i != ax] + [ax])) if A.ndim > 1 else A
+    n = A.shape[ax]
+    out = []
+    for k in range(0, moved.size, n):
+        chunk = moved.data[k:k + n]
+        best = 0
+        for i in range(1, n):
+            if better(exact(chunk[best]), exact(chunk[i])):
+                best = i
+        out.append(best)
+    shape = tuple(A.shape[i] for i in range(A.ndim) if i != ax)
+    return XArray(shape, out, "i") if shape else out[0]
+
+
+def _np_moveaxis(a, src, dst):
+    A = XArray.from_nested(a)
+    src, dst = int(src) % A.ndim, int(dst) % A.ndim
+    order = [i for i in range(A.ndim) if i != src]
+    order.insert(dst, src)
+    return A.transpose(*order)
 
 
 def _np_flatnonzero(a):
@@ -1700,14 +2014,25 @@ def _np_where(*a):
     if not isinstance(cond, XArray) or not all(isinstance(x, bool) for x in cond.data):
         raise XArrayError("np.where is data dependent: outside the table grammar")
     if len(a) == 1:
-        if cond.ndim != 1:
-            raise XArrayError("np.where(mask) of a non 1-D mask")
-        idx = [i for i, v in enumerate(cond.data) if v]
-        return (XArray((len(idx),), idx),)
+        if cond.ndim == 1:
+            idx = [i for i, v in enumerate(cond.data) if v]
+            return (XArray((len(idx),), idx, "i"),)
+        # N-d mask: one index array per axis, row-major order of the hits
+        import itertools as _it
+
+        hits = [ix for ix, v in zip(_it.product(*[range(n) for n in cond.shape]), cond.data) if v]
+        return tuple(XArray((len(hits),), [h[k] for h in hits], "i") for k in range(cond.ndim))
     x, y = a[1], a[2]
-    xs = XArray.from_nested(x).broadcast_to(cond.shape) if isinstance(x, (XArray, list, tuple)) else None
-    ys = XArray.from_nested(y).broadcast_to(cond.shape) if isinstance(y, (XArray, list, tuple)) else None
-    return XArray(cond.shape, [(xs.data[i] if xs is not None else exact(x)) if c else (ys.data[i] if ys is not None else exact(y)) for i, c in enumerate(cond.data)])
+    xa = XArray.from_nested(x) if isinstance(x, (XArray, list, tuple)) else None
+    ya = XArray.from_nested(y) if isinstance(y, (XArray, list, tuple)) else None
+    sh = cond.shape
+    for z in (xa, ya):
+        if z is not None:
+            sh = XArray._bshape(sh, z.shape)
+    cond = cond.broadcast_to(sh)
+    xs = xa.broadcast_to(sh) if xa is not None else None
+    ys = ya.broadcast_to(sh) if ya is not None else None
+    return XArray(sh, [(xs.data[i] if xs is not None else exact(x)) if c else (ys.data[i] if ys is not None else exact(y)) for i, c in enumerate(cond.data)])
 
 
 def _np_setdiff1d(a, b, **kw):
@@ -1794,6 +2119,7 @@ _PY_BUILTINS = {
     "getattr": lambda o, n, d=None: getattr(o, n, d) if not isinstance(o, (XObj,)) else o.attrs.get(n, d),
     "hasattr": lambda o, n: hasattr(o, n),
     "setattr": _py_setattr,
+    "complex": complex,
     "next": lambda it, *d: next(it, *d),
     "iter": iter,
     "str": str,
